@@ -280,6 +280,76 @@ func c04(c *core.Ctx) {
 			}
 		}
 	}
+	// self-consistent encodings of every size: a count or length field
+	// together with a body that really carries that many elements / bytes
+	// (the replacements above only ever make the field disagree with the
+	// body). n = 0..40 and a ladder up to 5000; unchanged, every truncation
+	// (n <= 40; the last 64 cuts otherwise), one byte more, count +-1.
+	{
+		t := &targets[0]
+		q := p9p.Qid{Type: 0x80, Version: 3, Path: 4}
+		var sizes []int
+		for n := 0; n <= 40; n++ {
+			sizes = append(sizes, n)
+		}
+		sizes = append(sizes, 63, 64, 65, 100, 127, 128, 129, 255, 256, 257, 511, 512, 513, 1000, 1024, 4096, 5000)
+		for _, n := range sizes {
+			if c.Expired() {
+				break
+			}
+			qids := make([]p9p.Qid, n)
+			names := make([]string, n)
+			for i := range qids {
+				qids[i] = q
+				names[i] = string(rune('a' + i%26))
+			}
+			str := strings.Repeat("s", n)
+			d := p9p.Dir{Type: 1, Dev: 2, Qid: q, Mode: 0755, AccessTime: time.Unix(5, 0), ModTime: time.Unix(6, 0), Length: 7, Name: str, UID: "uu", GID: "g", MUID: ""}
+			msgs := []p9p.Message{
+				p9p.MessageRwalk{Qids: qids}, p9p.MessageTwalk{Fid: 1, Newfid: 2, Wnames: names},
+				p9p.MessageRread{Data: bytes.Repeat([]byte{'d'}, n)}, p9p.MessageTwrite{Fid: 1, Offset: 10, Data: bytes.Repeat([]byte{'d'}, n)},
+				p9p.MessageRerror{Ename: str}, p9p.MessageTversion{MSize: 8192, Version: str},
+				p9p.MessageTattach{Fid: 1, Afid: 2, Uname: str, Aname: str}, p9p.MessageTcreate{Fid: 1, Name: str, Perm: 0644, Mode: 1},
+				p9p.MessageRstat{Stat: d}, p9p.MessageTwstat{Fid: 1, Stat: d},
+			}
+			for mi, m := range msgs {
+				b, err := refcodec.Encode(&p9p.Fcall{Tag: 0x0102, Message: m})
+				if err != nil {
+					continue
+				}
+				origin := fmt.Sprintf("consistent %s n=%d", m.Type(), n)
+				r.try(t, b, origin+" unchanged")
+				from := 0
+				if n > 40 && len(b) > 64 {
+					from = len(b) - 64
+				}
+				for cut := from; cut < len(b); cut++ {
+					r.try(t, b[:cut], fmt.Sprintf("%s truncated to %d", origin, cut))
+				}
+				r.try(t, append(append([]byte(nil), b...), 0), origin+" extended by 1")
+				if mi < 2 { // the list counts, one off in either direction
+					off := 3
+					if mi == 1 {
+						off = 11
+					}
+					for _, dlt := range []int{-1, 1} {
+						if v := n + dlt; v >= 0 {
+							b2 := append([]byte(nil), b...)
+							binary.LittleEndian.PutUint16(b2[off:], uint16(v))
+							r.try(t, b2, fmt.Sprintf("%s count=%d", origin, v))
+						}
+					}
+				}
+			}
+			if n <= 300 {
+				sb := refcodec.StatBytes(d)
+				r.try(&targets[1], sb, fmt.Sprintf("consistent Dir name=%d unchanged", n))
+				for cut := 0; cut < len(sb); cut++ {
+					r.try(&targets[1], sb[:cut], fmt.Sprintf("consistent Dir name=%d truncated to %d", n, cut))
+				}
+			}
+		}
+	}
 	// every 16-bit word at every offset takes ALL 65536 values (counts and
 	// lengths are 16-bit fields): quick on the kinds that carry lists, data
 	// or a stat; thorough on every seed
